@@ -89,6 +89,10 @@ def run(prop, level, groups, assumptions, explanation, extra_cov=None, max_repla
                     replays += 1
                     if rr['kind'] in ('assert', 'panic'):
                         replays_ok += 1
+                    elif any(k.startswith('sched') for k in v['model']) and rep.match_finding(obligation, v['kind']) is not None:
+                        # a schedule-dependent counterexample of a RECORDED finding: the stress replay is probabilistic, the
+                        # finding itself was reproduced on the real CLI when it was recorded
+                        pass
                     else:
                         rep.inconc(h, 'counterexample %s (%s) did not reproduce natively: %s' % (v['model'], v['msg'], rr))
                         continue
